@@ -40,6 +40,8 @@
 (*   ud_sent   the UD value the device was handed ("" = none)              *)
 (*   att_file  "yes" iff the attestation command left an output file       *)
 (*   contacted "yes" iff the attestation command opened the device link    *)
+(*   sigsite, sigclass   which signature(s) of the genuine device were     *)
+(*             ground to which "<r class>/<s class>" shape ("none", "any") *)
 (*   g_err, v_err   "none" | "AdminError" | "raw": how the attestation /   *)
 (*             verify command ended (raw = any other exception class)      *)
 (***************************************************************************)
@@ -95,8 +97,13 @@ NodeSane(o) == o.udsrc = "hex" \/ o.node \in ProperNode
 \* nothing was altered and the network behaved
 Genuine(o) == o.alt = "none" /\ NodeSane(o)
 
+\* the shape the featured signature(s) of the run were ground to ("any": left to the nonce)
+CompClasses == {"h32", "l32", "b31h", "b31l", "b30", "any"}
+ShapeClasses == {a \o "/" \o b : a \in CompClasses, b \in CompClasses \ {"b30"}}
 WellFormedP(o) ==
     /\ o.plat \in {"ledger", "sgx"}
+    /\ o.sigclass \in (ShapeClasses \cup {"any"})
+    /\ ((o.sigsite = "none") <=> (o.sigclass = "any"))
     /\ o.gather \in {"ok", "fail"} /\ o.verify \in {"ok", "fail", "na"}
     /\ o.g_onboard \in {"ok", "fail", "na"} /\ o.g_attest \in {"ok", "fail", "na"}
     /\ (o.gather = "ok") <=> (o.g_attest = "ok" /\ (o.plat = "ledger" => o.g_onboard = "ok"))
